@@ -128,12 +128,13 @@ def run(ctx):
     # 5. the queue as the channel's read loop feeds it: the producer far ahead of the consumer (enqueue x N, then dequeue x N or
     #    dequeue-all), through a transport that hands out the same buffer on every Read - a held chunk is the chunk produced
     chans = [{"style": st, "take": tk, "n": n, "reuse": ru} for st in ("plain", "cr", "esc", "mixed") for tk in ("read", "readall") for ru in (True, False) for n in (3, 40)]
+    chans += [{"style": st, "take": tk, "n": 6, "reuse": False, "failat": 2} for st in ("plain", "cr") for tk in ("read", "readall")]
     res = ctx.run_harness("c20chan", chans, timeout=600)
     if len(res) != len(chans):
         raise ToolError("c20chan answered %d of %d; stderr:\n%s" % (len(res), len(chans), ctx.last_stderr[-2000:]))
     for rr in res:
         ctx.count()
-        ctx.nontriv("chan:" + rr["variant"] + str(chans[rr["id"]]["n"]))
+        ctx.nontriv("chan:" + rr["variant"] + str(chans[rr["id"]]["n"]) + str(chans[rr["id"]].get("failat", "")))
         if rr.get("sig") == "TOOL":
             raise ToolError(rr.get("detail"))
         if not rr["ok"]:
